@@ -66,9 +66,20 @@ func usesValue(v ssa.Value, pred func(ssa.Value) bool) bool {
 			}
 			return false
 		}
-		for _, rv := range newHelperReturns(v) {
-			if walk(rv, d+1) {
-				return true
+		if rvs := newHelperReturns(v); len(rvs) > 0 {
+			for _, rv := range rvs {
+				if walk(rv, d+1) {
+					return true
+				}
+			}
+			if ex, isEx := v.(*ssa.Extract); isEx {
+				// one result of a multi-result helper: its arguments, not its other results
+				for _, a := range ex.Tuple.(*ssa.Call).Call.Args {
+					if walk(a, d+1) {
+						return true
+					}
+				}
+				return false
 			}
 		}
 		in, ok := v.(ssa.Instruction)
@@ -349,7 +360,7 @@ func checkSkips(c *Ctx, rule string, fn *ssa.Function, what string, v ssa.Value,
 	}
 	for _, r := range required {
 		if !found[r] {
-			bad = fmt.Sprintf("the exclusion `%s` (%s) is no longer applied", r, allowed[r])
+			bad = fmt.Sprintf("the exclusion `%s` (%s) is no longer applied (exclusions found: %s)", r, allowed[r], strings.Join(descs, "; "))
 		}
 	}
 	sort.Strings(descs)
@@ -667,7 +678,7 @@ func runC05(c *Ctx) {
 				nw++
 				c.Fn(FuncName(w.Fn))
 				construct := fmt.Sprintf("%s|write of objectTree.%s", FuncName(w.Fn), f.Name())
-				if TopFunc(w.Fn) != refresh {
+				if effectiveOwner(p, w.Fn) != refresh { // (a part of it split off into a new function still counts)
 					c.Violate(rule, construct, p.Pos(InstrPos(w.Instr)), "objectTree."+f.Name()+" is written outside readKeysFromAclState")
 					continue
 				}
@@ -680,7 +691,7 @@ func runC05(c *Ctx) {
 		}
 		// the current key is the entry of the current key id of the same state
 		curKeyId := p.Func(aclList + ":(*AclState).CurrentReadKeyId")
-		for _, w := range FieldWrites([]*ssa.Function{refresh}, fCur) {
+		for _, w := range FieldWrites(regionFuncs(refresh), fCur) {
 			vals, _ := Origins(w.Val)
 			for _, o := range vals {
 				ex, ok := o.(*ssa.Extract)
